@@ -75,6 +75,11 @@ CHECKS = {
    "A recipient with 1-3 channels from 1-2 senders; registrations through create_inbound_payment / create_inbound_payment_for_hash / keysend with generated minimum, expiry, min_final_cltv, metadata, re-registration; parts sent through the senders' own send API with generated onion fields, totals, secrets, CLTVs and channels. After every step the model's verdict (fail back with which reason class, hold, PaymentClaimable, PaymentClaimed, fulfil) is compared with the node; the credited amount is compared through channel balances; all-or-nothing (every part fulfilled or none) is checked over the whole history, including across MPP timeouts, the claim deadline and closed channels. The pure part drives the secret / metadata verification with 256 single-bit flips per case (about 16 M sub-evaluations quick). Search, not proof.",
    "Direct channels only, one HTLC per send call; no restarts, disconnects or async persistence at the recipient (C10 / C09 cover those); phantom and BOLT-12 receives are not generated; constants (fail-back buffer 39, +7200 s expiry grace) are restated in the model; three reachable library debug assertions are labelled, not failed (release behaviour satisfies the property).",
    "DESIGN.md §6 C04"),
+ "C03": ("netsim", "exploration",
+   "model-based stateful property-based testing of a real multi-node network: generated topologies, send styles, wire-level interleavings, reconnects cut inside the removal dance, async persistence, sender restarts and force-closes, each case driven to on-chain / off-chain quiescence; oracle = invariants over the sender's event and listing history against wire-level ground truth",
+   "Worlds of 2-4 nodes (pair, lines, diamond, parallel channels), all channel types. The sender pays by explicit single and multi-path routes, through the real router with retries, by keysend, and with routes that underpay a forwarder; duplicate payment ids, abandon_payment, restarts from any older manager snapshot with durable or last-written monitors, force closes, blocks and timer ticks are generated. Every case ends with an end game (settle, resolve what is claimable by generated choice, mine until nothing is in flight). Checked over the whole history: at quiescence every payment has exactly one terminal outcome and is no longer listed as pending; PaymentSent only with the preimage of the hash and fee_paid equal to the exact balance decrease; PaymentFailed only when no part was or can still be fulfilled; no contradicting or duplicate terminal event per manager lineage; PaymentPathFailed names the channel that really failed (wire-level origin tracking); a payment in flight is always listed; duplicate ids are refused. A second part measures amount + fee against the sender's capacity delta exactly, one payment at a time. Search, not proof.",
+   "Only the sender restarts; no reorgs, BOLT-12 or async payments; exact balance equality only when no channel closed (with closures 'not understated' as the library documents); on-chain outcomes are checked for absence of a confirmed preimage claim, not by spendable-output accounting (C07's domain). Listed known findings are matched on exact mechanism keys and counted as excluded_known.",
+   "DESIGN.md §6 C03"),
 }
 
 NOT_YET = {
